@@ -4,6 +4,8 @@ import (
 	"context"
 	"math"
 	"sync"
+
+	"github.com/mithrandie/csvq/lib/verifhook"
 )
 
 var (
@@ -156,10 +158,14 @@ func (m *GoroutineTaskManager) run(ctx context.Context, fn func(int) error, thId
 	}()
 
 	start, end := m.RecordRange(thIdx)
+	verifhook.Worker("task", thIdx, m.Number)
 
 	for i := start; i < end; i++ {
 		if m.HasError() {
 			break
+		}
+		if i&15 == 0 {
+			verifhook.Worker("task", thIdx, 0)
 		}
 		if i&15 == 0 && ctx.Err() != nil {
 			break
